@@ -23,13 +23,18 @@ BUILTINS = ["string", "int", "boolean", "decimal", "double", "date", "dateTime",
 
 # ---------------------------------------------------------------- generation
 
-def gen_iface(rng, n_ns=None, styles=None, rich=True):
+def gen_iface(rng, n_ns=None, styles=None, rich=True, encoded=False):
+    """encoded=True: an rpc/encoded interface (every operation rpc/encoded; SOAP section-5 array types)."""
     n_ns = n_ns or rng.choice([1, 1, 2, 3])
+    arrays = {}
+    array_order = []
     nss = [{"uri": "urn:n%d" % i, "form": rng.choice(["qualified", "qualified", "unqualified"])} for i in range(n_ns)]
     types = {}
     order = []
 
     def pick_type(avail_complex, depth):
+        if encoded and array_order and rng.random() < 0.25:
+            return ("a", rng.choice(array_order))
         if avail_complex and rng.random() < 0.35:
             return ("c", rng.choice(avail_complex))
         return ("b", rng.choice(BUILTINS))
@@ -37,6 +42,8 @@ def gen_iface(rng, n_ns=None, styles=None, rich=True):
     def member(name, avail, depth, in_choice=False):
         t = pick_type(avail, depth)
         mx = rng.choice([1, 1, 1, "unbounded"])
+        if t[0] == "a":
+            mx = 1      # a repeating member of array type would be a list of lists: outside the alphabet
         mn = rng.choice([0, 1, 1])
         return {"name": name, "type": t, "min": mn, "max": mx,
                 "nillable": rng.random() < 0.3, "form": rng.choice([None, None, None, "qualified", "unqualified"])}
@@ -73,10 +80,21 @@ def gen_iface(rng, n_ns=None, styles=None, rich=True):
                 attrs[-1]["default"] = "true"
             if attrs[-1]["use"] == "required":
                 attrs[-1]["default"] = None
+        if rich and p["kind"] == "seq" and rng.random() < 0.2:
+            # a recursive member (optional or repeating, as XSD requires for a finite instance)
+            p["items"].append({"name": "m%d_self" % i, "type": ("c", (ns, name)), "min": 0,
+                               "max": rng.choice([1, "unbounded"]), "nillable": False, "form": None})
         types[(ns, name)] = {"base": base, "particle": p, "attrs": attrs}
         order.append((ns, name))
+        if encoded and rng.random() < 0.7:
+            item = ("c", (ns, name)) if rng.random() < 0.6 else ("b", rng.choice(BUILTINS))
+            akey = (rng.randrange(n_ns), "ArrayOf%d" % len(array_order))
+            arrays[akey] = item
+            array_order.append(akey)
     ops = []
     styles = styles or ["wrapped", "wrapped", "bare", "rpclit"]
+    if encoded:
+        styles = ["rpcenc"]
     for i in range(rng.randint(1, 3)):
         style = rng.choice(styles)
         def params(prefix, n):
@@ -92,7 +110,8 @@ def gen_iface(rng, n_ns=None, styles=None, rich=True):
             return out
         ops.append({"name": "op%d" % i, "style": style, "in": params("a", rng.randint(0, 3)),
                     "out": params("r", rng.choice([0, 1, 1, 2]))})
-    return {"namespaces": nss, "types": types, "type_order": order, "ops": ops}
+    return {"namespaces": nss, "types": types, "type_order": order, "ops": ops, "arrays": arrays,
+            "array_order": array_order, "encoded": encoded}
 
 
 def flatten_particle(p, path=()):
@@ -206,6 +225,9 @@ def gen_value(rng, iface, ttype, depth=0, allow_derived=True):
     """A schema-conforming value for type reference ttype = ('b', name) | ('c', key)."""
     if ttype[0] == "b":
         return gen_builtin(rng, ttype[1])
+    if ttype[0] == "a":
+        n = rng.choice([0, 1, 2, 3]) if depth <= 2 else 0
+        return {"__array__": [gen_value(rng, iface, iface["arrays"][ttype[1]], depth + 1) for _ in range(n)]}
     key = ttype[1]
     real = key
     if allow_derived and depth <= 2:
@@ -215,7 +237,7 @@ def gen_value(rng, iface, ttype, depth=0, allow_derived=True):
     val = {"__type__": real} if real != key else {}
     chosen = {}
     for m, decl, in_choice in members_of(iface, real):
-        if depth > 2 and m["type"][0] == "c":
+        if depth > 2 and m["type"][0] in ("c", "a"):
             if m["min"] == 0 or in_choice:
                 continue
         if in_choice:
@@ -307,6 +329,60 @@ def spec_element(iface, name, ns, ttype, value, nillable=False, reply=False):
     return node
 
 
+def type_qname(iface, ttype):
+    if ttype[0] == "b":
+        return [XSD, ttype[1]]
+    return [iface["namespaces"][ttype[1][0]]["uri"], ttype[1][1]]
+
+
+def spec_element_enc(iface, name, ns, ttype, value, nillable=False, reply=False):
+    """Section-5 encoding of one accessor: xsi:type everywhere, arrays with soapenc:arrayType."""
+    node = {"name": [ns, name], "attrs": [], "text": "", "children": []}
+    if value is None:
+        node["attrs"].append([[XSI, "type"], {"qname": type_qname(iface, ttype)}])
+        if nillable:
+            node["attrs"].append([[XSI, "nil"], "true"])
+        return node
+    if ttype[0] == "b":
+        node["attrs"].append([[XSI, "type"], {"qname": type_qname(iface, ttype)}])
+        node["text"] = ("b", ttype[1], value)
+        return node
+    if ttype[0] == "a":
+        item = iface["arrays"][ttype[1]]
+        items = value["__array__"]
+        node["attrs"].append([[XSI, "type"], {"qname": type_qname(iface, ttype)}])
+        node["attrs"].append([[ENC, "arrayType"], {"qname": type_qname(iface, item), "dim": "[%d]" % len(items)}])
+        for x in items:
+            node["children"].append(spec_element_enc(iface, "item", None, item, x, False, reply))
+        return node
+    key = ttype[1]
+    real = value.get("__type__", key)
+    node["attrs"].append([[XSI, "type"], {"qname": type_qname(iface, ("c", real))}])
+    for a, decl in attrs_of(iface, real):
+        v = value.get("_" + a["name"])
+        if v is not None:
+            node["attrs"].append([[None, a["name"]], ("b", a["type"], v)])
+    for m, decl, in_choice in members_of(iface, real):
+        if m["name"] not in value:
+            continue
+        v = value[m["name"]]
+        ns2 = member_ns(iface, m, decl)
+        if isinstance(v, list):
+            for item in v:
+                node["children"].append(spec_element_enc(iface, m["name"], ns2, m["type"], item, m["nillable"], reply))
+            continue
+        if v is None:
+            if reply:
+                if not m["nillable"]:
+                    continue
+            elif m["min"] == 0 or in_choice:
+                continue
+        if not reply and isinstance(v, dict) and v.get("__array__") == [] and (m["min"] == 0 or in_choice):
+            continue
+        node["children"].append(spec_element_enc(iface, m["name"], ns2, m["type"], v, m["nillable"], reply))
+    return node
+
+
 def spec_request(iface, op, args):
     """Expected Body child(ren) for calling `op` with `args` (dict param name -> value)."""
     ns0 = iface["namespaces"][0]["uri"]
@@ -332,8 +408,12 @@ def spec_request(iface, op, args):
         return out
     # rpc: wrapper named after the operation in the soap:body namespace; part accessors
     wrapper = {"name": [rpc_ns(iface), op["name"]], "attrs": [], "text": "", "children": []}
+    one = spec_element_enc if style == "rpcenc" else spec_element
     for p in op["in"]:
-        wrapper["children"].append(spec_element(iface, p["name"], None, p["type"], args.get(p["name"])))
+        v = args.get(p["name"])
+        if v is None or (isinstance(v, dict) and v.get("__array__") == []):
+            continue        # suds treats every rpc part as optional: None / an empty array is left out
+        wrapper["children"].append(one(iface, p["name"], None, p["type"], v))
     return [wrapper]
 
 
@@ -371,6 +451,8 @@ def _q(r, iface, ttype, own_ns=None):
     if ttype[0] == "b":
         return "xsd:" + ttype[1]
     ns, name = ttype[1]
+    if ttype[0] == "a":
+        return "%s:%s" % (r.prefixes[ns], name)
     if r.default_ns_schema and own_ns == ns:
         return name
     return "%s:%s" % (r.prefixes[ns], name)
@@ -457,6 +539,11 @@ def render_schemas(r, iface):
         for key in iface["type_order"]:
             if key[0] == ns:
                 decls.append(_type_xml(r, iface, key, extra))
+        for akey in iface.get("array_order", []):
+            if akey[0] == ns:
+                decls.append('<xsd:complexType name="%s"><xsd:complexContent><xsd:restriction base="soapenc:Array">'
+                             '<xsd:attribute ref="soapenc:arrayType" wsdl:arrayType="%s[]"/></xsd:restriction>'
+                             '</xsd:complexContent></xsd:complexType>' % (akey[1], _q(r, iface, iface["arrays"][akey])))
         if ns == 0:
             for op in iface["ops"]:
                 decls += _op_elements(r, iface, op, extra)
@@ -464,10 +551,12 @@ def render_schemas(r, iface):
         if r.shuffle and r.rng is not None:
             r.rng.shuffle(decls)
         imports = "".join('<xsd:import namespace="%s"/>' % iface["namespaces"][j]["uri"] for j in range(n) if j != ns)
+        if iface.get("encoded"):
+            imports += '<xsd:import namespace="%s"/>' % ENC
         nsdecl = " ".join('xmlns:%s="%s"' % (r.prefixes[j], iface["namespaces"][j]["uri"]) for j in range(n))
         dflt = ' xmlns="%s"' % iface["namespaces"][ns]["uri"] if r.default_ns_schema else ""
-        head = '<xsd:schema xmlns:xsd="%s" %s%s targetNamespace="%s" elementFormDefault="%s">' % (
-            XSD, nsdecl, dflt, iface["namespaces"][ns]["uri"], iface["namespaces"][ns]["form"])
+        head = '<xsd:schema xmlns:xsd="%s" xmlns:soapenc="%s" xmlns:wsdl="%s" %s%s targetNamespace="%s" elementFormDefault="%s">' % (
+            XSD, ENC, WSDLNS, nsdecl, dflt, iface["namespaces"][ns]["uri"], iface["namespaces"][ns]["form"])
         if r.split_blocks and len(decls) > 1 and r.rng is not None:
             k = r.rng.randint(1, len(decls) - 1)
             out[ns] = [head + imports + "".join(decls[:k]) + "</xsd:schema>", head + imports + "".join(decls[k:]) + "</xsd:schema>"]
@@ -574,15 +663,16 @@ def top_value(p, outvals):
 def spec_reply_nodes(iface, op, outvals):
     """Body content (list of spec nodes) of a reply carrying `outvals` (dict out-param name -> value)."""
     nodes = []
+    se = spec_element_enc if op["style"] == "rpcenc" else spec_element
     for (p, ns), orig in zip(out_params(iface, op), op["out"]):
         tv = top_value(orig, outvals)
         if tv[0] == "many":
             for item in tv[1]:
-                nodes.append(spec_element(iface, p["name"], ns, p["type"], item, orig["nillable"], True))
+                nodes.append(se(iface, p["name"], ns, p["type"], item, orig["nillable"], True))
         elif tv[0] == "one":
-            nodes.append(spec_element(iface, p["name"], ns, p["type"], tv[1], False, True))
+            nodes.append(se(iface, p["name"], ns, p["type"], tv[1], False, True))
         elif tv[0] == "nil":
-            nodes.append(spec_element(iface, p["name"], ns, p["type"], None, True, True))
+            nodes.append(se(iface, p["name"], ns, p["type"], None, True, True))
     if op["style"] == "wrapped":
         return [{"name": [iface["namespaces"][0]["uri"], op["name"] + "Response"], "attrs": [], "text": "", "children": nodes}]
     if op["style"] == "bare":
@@ -597,6 +687,8 @@ def decoded(iface, ttype, value):
         return None
     if ttype[0] == "b":
         return value
+    if ttype[0] == "a":
+        return [decoded(iface, iface["arrays"][ttype[1]], x) for x in value["__array__"]]
     key = ttype[1]
     real = value.get("__type__", key)
     out = {"__class__": real[1]}
@@ -732,7 +824,7 @@ def _prefix_for(pr, scope, uri, decls, allow_default):
     cands = [p for p, u in scope.items() if u == uri and (p is not None or allow_default)]
     if cands and rng.random() > pr.fresh:
         return rng.choice(sorted(cands, key=lambda x: x or ""))
-    if allow_default and rng.random() < pr.default_ns:
+    if allow_default and rng.random() < pr.default_ns and not any(d.startswith("xmlns=") for d in decls):
         scope[None] = uri
         decls.append('xmlns="%s"' % uri)
         return None
@@ -831,3 +923,27 @@ def write_envelope(pr, body_nodes):
         env["children"].insert(0, {"name": [envns, "Header"], "attrs": [], "text": "", "children": []})
     head = pr.rng.choice(['<?xml version="1.0" encoding="UTF-8"?>', "", '<?xml version="1.0"?>\n'])
     return (head + write_node(pr, env, {"xml": "http://www.w3.org/XML/1998/namespace"})).encode("utf-8")
+
+
+# ---------------------------------------------------------------- the reference: factory objects
+
+def spec_skeleton(iface, key, path=()):
+    """What factory.create(type) holds: every member of the content model in schema order (inherited
+    first), [] for repeating members, a pre-built object for a required complex member, None for optional
+    members and leaves, nothing for choice branches; attributes under '_' names with their default."""
+    out = {"__class__": key[1]}
+    for a, _ in attrs_of(iface, key):
+        out["_" + a["name"]] = a["default"]
+    for m, decl, in_choice in members_of(iface, key):
+        if in_choice:
+            continue
+        ident = (decl, m["name"])
+        if ident in path:
+            continue            # recursion cut-off
+        if m["max"] == "unbounded":
+            out[m["name"]] = []
+        elif m["type"][0] == "b" or m["min"] == 0:
+            out[m["name"]] = None
+        else:
+            out[m["name"]] = spec_skeleton(iface, m["type"][1], path + (ident,))
+    return out
